@@ -8,12 +8,12 @@ Local Open Scope Z_scope.
 Section Part.
   Variable T : Type.
   Variable eqb : T -> T -> bool.
-  Variable cmp : T -> T -> Z.
+  Variable cmp : nat -> T -> T -> Z.
   Variable draw : nat -> nat.
   Hypothesis eqb_spec : forall x y, eqb x y = true <-> x = y.
-  Hypothesis cmp_eq : forall x y, cmp x y = 0 <-> x = y.
-  Hypothesis cmp_anti : forall x y, cmp x y < 0 <-> 0 < cmp y x.
-  Hypothesis cmp_trans : forall x y z, cmp x y < 0 -> cmp y z < 0 -> cmp x z < 0.
+  Hypothesis cmp_eq : forall c x y, cmp c x y = 0 <-> x = y.
+  Hypothesis cmp_anti : forall c x y, cmp c x y < 0 <-> 0 < cmp c y x.
+  Hypothesis cmp_trans : forall c x y z, cmp c x y < 0 -> cmp c y z < 0 -> cmp c x z < 0.
 
   Notation set0 := (vset T).
   Notation set1 := (vset (vset T)).
@@ -138,7 +138,7 @@ Section Part.
     unfold Model.part_eq, vequal in H. simpl in H.
     destruct (negb (Nat.eqb (vsize set0 (mkv Unordered lp)) (vsize set0 (mkv Unordered lq)))); [discriminate|].
     rewrite all_in_hasb in H. simpl in H. rewrite forallb_forall in H.
-    intros b Hb. specialize (H b Hb). rewrite hasb_linear in H by congruence.
+    intros b Hb. specialize (H b Hb). rewrite hasb_linear in H by exact I.
     unfold Spec.memb in H. apply existsb_exists in H. destruct H as (m & Hm & He).
     rewrite Forall_forall in Ip, Iq.
     apply (set_eq_spec T eqb cmp eqb_spec cmp_eq cmp_anti cmp_trans) in He; auto.
